@@ -59,6 +59,7 @@ type RawSpec struct {
 	File    string
 	Opaque  bool
 	Trigger string
+	Generated bool
 }
 
 type RawGhost struct {
@@ -237,7 +238,7 @@ func parseContractFile(path string) (*ContractFile, error) {
 				cur.Locals = rest
 			case "split":
 				cur.Split = rest
-			case "requires", "ensures", "assigns", "assume":
+			case "requires", "ensures", "assigns", "assume", "use":
 				c := &RawClause{Kind: word, Loop: -1, Line: ln}
 				c.Label, c.Props, c.Text = splitLabel(rest)
 				cur.Clauses = append(cur.Clauses, c)
@@ -518,6 +519,13 @@ func govcFresh[T any](x T) bool                           { return true }
 func govcTypeIs[T any](x interface{}) bool                { _, ok := x.(T); return ok }
 func govcSame[T any](a, b T) bool                         { return true }
 func govcIsNaN(x float64) bool                            { return x != x }
+func govcRVNumField(m int) int                            { return 0 }
+func govcRVClass(m, i int) int                            { return 0 }
+func govcRVWidth(m, i int) int                            { return 0 }
+func govcRVEClass(m, i int) int                           { return 0 }
+func govcRVEWidth(m, i int) int                           { return 0 }
+func govcRVTypeTag(m, i int) int                          { return 0 }
+func govcTypeTag[T any]() int                             { return 0 }
 func govcIsEOF(err error) bool                            { return false }
 func govcIsUEOF(err error) bool                           { return false }
 func govcErrIs[T any](err error, target T) bool           { return false }
@@ -546,6 +554,9 @@ func genOverlay(cf *ContractFile) (string, error) {
 		fmt.Fprintf(body, "%s { panic(0) }\n", g.Decl)
 	}
 	for _, sp := range cf.Specs {
+		if sp.Generated {
+			continue
+		}
 		lb, err := lowerExpr(sp.Body)
 		if err != nil {
 			return "", fmt.Errorf("%s:%d: %v", sp.File, sp.Line, err)
@@ -585,6 +596,8 @@ func genOverlay(cf *ContractFile) (string, error) {
 						fmt.Fprintf(body, "\t_ = govcLoc(%d, %s)\n", id, rewriteBuiltins(loc))
 					}
 				}
+			case "use":
+				fmt.Fprintf(body, "\t_ = govcClause(%d, lemma_%s)\n", id, rewriteBuiltins(strings.TrimSpace(cl.Text)))
 			case "decreases":
 				lb, err := lowerExpr(cl.Text)
 				if err != nil {
@@ -599,7 +612,33 @@ func genOverlay(cf *ContractFile) (string, error) {
 				fmt.Fprintf(body, "\t_ = govcClause(%d, %s)\n", id, rewriteBuiltins(lb))
 			}
 		}
+		if c.Split != "" {
+			for k, ex := range strings.Fields(c.Split)[1:] {
+				fmt.Fprintf(body, "\t_ = govcTerm(%d, %s)\n", 9000+k, ex)
+			}
+		}
 		body.WriteString("}\n")
+	}
+	for _, l := range cf.Lemmas {
+		// the lemma as a predicate (hypotheses imply conclusion), for `use` clauses
+		var hs []string
+		for _, h := range l.Hyps {
+			lb, err := lowerExpr(h)
+			if err != nil {
+				return "", fmt.Errorf("%s:%d: %v", l.File, l.Line, err)
+			}
+			hs = append(hs, "("+rewriteBuiltins(lb)+")")
+		}
+		lc, err := lowerExpr(l.Concl)
+		if err != nil {
+			return "", fmt.Errorf("%s:%d: %v", l.File, l.Line, err)
+		}
+		hyp := "true"
+		if len(hs) > 0 {
+			hyp = strings.Join(hs, " && ")
+		}
+		fmt.Fprintf(body, "func lemma_%s(%s) bool { return govcImp(%s, %s) }\n", l.Name, l.Params, hyp, rewriteBuiltins(lc))
+		cf.Specs = append(cf.Specs, &RawSpec{Kind: "pred", Name: "lemma_" + l.Name, Params: l.Params, Result: "bool", Line: l.Line, File: l.File, Generated: true})
 	}
 	for n, l := range cf.Lemmas {
 		l.GenName = fmt.Sprintf("govcL_%d_%s", n, l.Name)
@@ -646,9 +685,10 @@ func genOverlay(cf *ContractFile) (string, error) {
 	return b.String(), nil
 }
 
-var reBuiltin = regexp.MustCompile(`\b(old|ite|fresh|same|isNaN|ifaceOf|samebase|offset|isEOF|isUEOF|iserr)\(`)
+var reBuiltin = regexp.MustCompile(`\b(old|ite|fresh|same|isNaN|ifaceOf|samebase|offset|isEOF|isUEOF|iserr|rvNumField|rvClass|rvWidth|rvEClass|rvEWidth|rvTypeTag)\(`)
 var reTypeIs = regexp.MustCompile(`\btypeis\[`)
 var reMsgOf = regexp.MustCompile(`\bmsgOf\[`)
+var reTypeTag = regexp.MustCompile(`\btypetag\[`)
 
 // rewriteBuiltins maps the short spec builtins to their overlay names.
 func rewriteBuiltins(s string) string {
@@ -670,6 +710,18 @@ func rewriteBuiltins(s string) string {
 			return "govcIsUEOF("
 		case "iserr(":
 			return "govcErrIs("
+		case "rvNumField(":
+			return "govcRVNumField("
+		case "rvClass(":
+			return "govcRVClass("
+		case "rvWidth(":
+			return "govcRVWidth("
+		case "rvEClass(":
+			return "govcRVEClass("
+		case "rvEWidth(":
+			return "govcRVEWidth("
+		case "rvTypeTag(":
+			return "govcRVTypeTag("
 		case "samebase(":
 			return "govcSameBase("
 		case "offset(":
@@ -681,5 +733,6 @@ func rewriteBuiltins(s string) string {
 	})
 	s = reTypeIs.ReplaceAllString(s, "govcTypeIs[")
 	s = reMsgOf.ReplaceAllString(s, "govcMsgOf[")
+	s = reTypeTag.ReplaceAllString(s, "govcTypeTag[")
 	return s
 }
